@@ -66,6 +66,13 @@ def check(ctx) -> Result:
         r = ctx.ix.resolve(mod, nm)
         res.add(r is not None and r[0] == "class" and "qubit/gates" in r[1].module.rel, "K-registry", f"import:{nm}", QC, "imports", "resolves to the gate library class", f"name {nm} does not resolve to lightworks.qubit.gates.{nm}", construct=nm)
     rk_tables.single_qubit_gates(ctx, res)
+    # the converter places every gate with Circuit.add: the wiring rules of C02 are necessary conditions here too
+    from . import c02 as _c02
+    dep = _c02.check(ctx)
+    for o in dep.obligations:
+        if o.status == "violation":
+            res.bad("dep:C02:" + o.rule, o.instance, o.site, o.qualname, "Circuit.add wiring (needed by every converted multi-gate circuit): " + o.why, construct=o.construct)
+    res.count("dependency_obligations_C02", len(dep.obligations))
     # ALLOWED_GATES
     al = mod.assigns.get("ALLOWED_GATES")
     names = sorted(src(x.value) for x in al[0].elts if isinstance(x, ast.Starred)) if al and isinstance(al[0], ast.List) else []
@@ -76,17 +83,33 @@ def check(ctx) -> Result:
     rd_atomic.guard_dominates(ctx, res, conv, lambda t, n: src(t).replace(" ", "") == "gatenotinALLOWED_GATES",
                               lambda nd: nd.kind == "stmt" and any(isinstance(x, ast.Call) and src(x.func).startswith("self._add_") for x in ast.walk(nd.ast)),
                               "D-unsupported-gate-refused", "QiskitConverter.convert", "an unsupported gate is refused before any dispatch")
-    # dispatch chains total
-    for f in (conv, Q.methods["_add_two_qubit_gate"], Q.methods["_add_three_qubit_gate"]):
-        heads = []
-        elifs = {id(n.orelse[0]) for n in walk_no_nested(f.node) if isinstance(n, ast.If) and len(n.orelse) == 1 and isinstance(n.orelse[0], ast.If)}
-        for n in walk_no_nested(f.node):
-            if isinstance(n, ast.If) and id(n) not in elifs and (("gate ==" in src(n.test) or "gate in" in src(n.test) or "len(qubits)" in src(n.test)) and "not in" not in src(n.test)) and n.orelse:
-                heads.append(n)
-        for h in heads:
-            inner_only = all("gate ==" in src(h.test) and h is not heads[0] for _ in [0])
-            if h is heads[0] or "len(qubits)" in src(h.test):
-                res.add(ends_in_raise(h), "H4-dispatch-total", f"{f.qualname}:{src(h.test)[:30]}", f.site(h), f.qualname, "dispatch chain ends in raise", "an unrecognised gate / arity falls through the dispatch without an error", construct=src(h.test))
+    # dispatch is total: no path through a gate-adding method reaches its end without having added a gate (or raised)
+    from ..cfg import own_exprs as _own
+    def adds_gate(nd):
+        return nd.ast is not None and nd.kind in ("stmt",) and any(isinstance(x, ast.Call) and (src(x.func) == "self.circuit.add" or (isinstance(x.func, ast.Attribute) and src(x.func.value) == "self" and x.func.attr.startswith("_add_"))) for e in _own(nd) for x in ast.walk(e))
+    for f in (Q.methods["_add_two_qubit_gate"], Q.methods["_add_three_qubit_gate"]):
+        cfg_f = ctx.cfg(f)
+        # forward reachability avoiding gate-adding nodes
+        seen, todo = {cfg_f.entry.id}, [cfg_f.entry.id]
+        while todo:
+            i = todo.pop()
+            for t, lab in cfg_f.nodes[i].succ:
+                if lab in ("exc", "raise") or t in seen:
+                    continue
+                if adds_gate(cfg_f.nodes[t]):
+                    continue
+                seen.add(t)
+                todo.append(t)
+        silent = cfg_f.exit.id in seen
+        res.add(not silent, "H4-dispatch-total", f.qualname, f.site(), f.qualname, "every path either adds a gate or raises", "a gate name that matches no branch falls through without adding anything and without an error: the converted circuit silently omits the gate", construct=f.qualname)
+    # in convert: the arity dispatch ends in raise
+    heads = [n for n in walk_no_nested(conv.node) if isinstance(n, ast.If) and "len(qubits)" in src(n.test)]
+    elifs = {id(n.orelse[0]) for n in walk_no_nested(conv.node) if isinstance(n, ast.If) and len(n.orelse) == 1 and isinstance(n.orelse[0], ast.If)}
+    heads = [h for h in heads if id(h) not in elifs]
+    if heads:
+        res.add(ends_in_raise(heads[0]), "H4-dispatch-total", "QiskitConverter.convert:arity", conv.site(heads[0]), conv.qualname, "gates on more than three qubits are refused", "an instruction on an unsupported number of qubits is silently skipped", construct=src(heads[0].test))
+    else:
+        res.frozen(False, "H4-dispatch-total", "QiskitConverter.convert:arity", conv.site(), conv.qualname, "", "arity dispatch not recognised", construct="arity")
     # two-qubit gate: PS table only under post_selection; swaps symmetric; target
     two = Q.methods["_add_two_qubit_gate"]
     mp = [a for a in walk_no_nested(two.node) if isinstance(a, ast.Assign) and src(a.targets[0]) == "mapper"]
@@ -94,10 +117,37 @@ def check(ctx) -> Result:
         (src(mp[0].value.test) == "not post_selection" and src(mp[0].value.body) == "TWO_QUBIT_GATES_MAP" and src(mp[0].value.orelse) == "TWO_QUBIT_GATES_MAP_PS")
         or (src(mp[0].value.test) == "post_selection" and src(mp[0].value.body) == "TWO_QUBIT_GATES_MAP_PS" and src(mp[0].value.orelse) == "TWO_QUBIT_GATES_MAP"))
     res.add(okm, "K-ps-table-only-under-post-selection", "_add_two_qubit_gate", two.site(), two.qualname, "post-selected gate classes are used only when this gate may be post-selected", "selection between heralded and post-selected gate tables changed", construct=src(mp[0]) if mp else "")
-    loops = sorted([l for l in walk_no_nested(two.node) if isinstance(l, ast.For)], key=lambda l: l.lineno)
+    # swaps inserted before and after the gate are the same operation on the same list
     adds = [c for c in walk_no_nested(two.node) if isinstance(c, ast.Call) and src(c.func) == "self.circuit.add" and "add_circ" in src(c)]
-    oks = len(loops) == 2 and len(adds) == 1 and src(loops[0].iter) == src(loops[1].iter) == "to_swap" and src(loops[0].body[0]) == src(loops[1].body[0]) and loops[0].lineno < adds[0].lineno < loops[1].lineno
-    res.add(oks, "K-swap-conjugation", "_add_two_qubit_gate", two.site(), two.qualname, "the same swaps are applied before and after the gate", "swaps before and after a non-adjacent two-qubit gate are not the same list around the gate", construct=";".join(src(l.iter) for l in loops))
+    par_ = ctx.tree.parents(two.rel)
+    def stmt_of(n):
+        while not isinstance(n, ast.stmt):
+            n = par_[n]
+        return n
+    verdict = None
+    if len(adds) == 1:
+        st = stmt_of(adds[0])
+        blk = par_.get(st)
+        body = blk.body if st in getattr(blk, "body", []) else getattr(blk, "orelse", [])
+        i = body.index(st)
+        def swap_op(s_):
+            if isinstance(s_, ast.For) and "swap" in src(s_.iter):
+                return ("loop", src(s_.iter), src(s_.body[0]) if s_.body else "")
+            if isinstance(s_, ast.Expr) and isinstance(s_.value, ast.Call) and any("swap" in src(a_) for a_ in s_.value.args):
+                return ("call", src(s_.value.func), ",".join(src(a_) for a_ in s_.value.args))
+            return None
+        before = [swap_op(x) for x in body[:i] if swap_op(x)]
+        after = [swap_op(x) for x in body[i + 1:] if swap_op(x)]
+        if before and after:
+            verdict = before[-1] == after[0]
+            why = f"before: {before[-1]} after: {after[0]}"
+        elif before or after:
+            verdict = False
+            why = f"swaps only {'before' if before else 'after'} the gate"
+    if verdict is None:
+        res.frozen(False, "K-swap-conjugation", "_add_two_qubit_gate", two.site(), two.qualname, "", "swap insertion around the gate not recognised", construct="swaps")
+    else:
+        res.add(verdict, "K-swap-conjugation", "_add_two_qubit_gate", two.site(), two.qualname, "the same swaps are applied before and after the gate", f"the swaps applied before and after a non-adjacent two-qubit gate differ ({why}): the qubits are not returned to their places", construct=why)
     t = src(two.node).replace(" ", "")
     res.frozen("target=q1-min([q0,q1])" in t and "add_circ=mapper['cx'](target)" in t and "add_mode=self.modes[min([q0,q1])][0]" in t and "q0,q1,to_swap=convert_two_qubits_to_adjacent(q0,q1)" in t.replace("(q0,q1,to_swap)", "q0,q1,to_swap"),
             "K-target-and-placement", "_add_two_qubit_gate", two.site(), two.qualname, "cx target = q1 - min(q0, q1); gate placed on the lower qubit's first mode after making the qubits adjacent", "target / placement computation of two-qubit gates changed", construct="two-qubit placement")
@@ -122,5 +172,21 @@ def check(ctx) -> Result:
         good = "self.modes[qubit][0])" in ts and (("SINGLE_QUBIT_GATES_MAP[gate]," in ts) if nm == "_add_single_qubit_gate" else ("ROTATION_GATES_MAP[gate](theta)," in ts))
         res.frozen(good, "K-target-and-placement", nm, f.site(), f.qualname, "gate looked up by its qiskit name and placed on the qubit's first mode", "single-qubit gate lookup / placement changed", construct=nm)
     res.frozen("theta=inst.operation.params[0]" in tc and "post_select[i]" in tc and "post_select=[False]*len(q_circuit.data)" in tc, "K-target-and-placement", "convert:arguments", conv.site(), conv.qualname, "rotation angle and the per-instruction post-selection flag are passed on", "angle / post-selection flag plumbing changed", construct="plumbing")
+    # ---- adjacency helper: the swap for the lower and for the upper qubit are independent (both may be needed)
+    adj = ctx.func(QC, "convert_two_qubits_to_adjacent")
+    cfg_a = ctx.cfg(adj)
+    apps = [n for n in cfg_a.nodes if n.kind == "stmt" and any(isinstance(x, ast.Call) and src(x.func) == "swaps.append" for x in ast.walk(n.ast))]
+    if len(apps) >= 2:
+        a0, a1 = sorted(apps, key=lambda n: n.lineno)[:2]
+        both = a1.id in cfg_a.reachable_from(a0.id)
+        res.add(both, "K-adjacency-swaps-independent", "convert_two_qubits_to_adjacent", adj.site(a1.ast), adj.qualname, "a gate on qubits three or more apart gets both the lower-qubit and the upper-qubit swap",
+                "the swap for the upper qubit cannot be emitted when the lower qubit is moved too (mutually exclusive branches): a gate on qubits >= 3 apart acts on a neighbouring qubit", construct=src(a1.ast))
+    else:
+        res.frozen(False, "K-adjacency-swaps-independent", "convert_two_qubits_to_adjacent", adj.site(), adj.qualname, "", "swap list construction not recognised", construct="swaps")
+    # ---- post-selection analysis looks at every multi-qubit instruction, whatever its name (a swap moves the photons too)
+    psa = ctx.func(QC, "post_selection_analyzer")
+    named = [n for n in walk_no_nested(psa.node) if isinstance(n, ast.Attribute) and n.attr == "name"]
+    res.add(not named, "K-analyzer-gate-agnostic", "post_selection_analyzer", psa.site(named[0]) if named else psa.site(), psa.qualname, "qubits are collected for every instruction with two or more qubits",
+            "the post-selection analysis treats instructions differently by gate name: a multi-qubit gate left out of the bookkeeping (e.g. swap) still moves the photons a later post-selected gate relies on", construct=src(named[0]) if named else "")
     res.frozen("ps_rules.add(self.modes[q],1)" in tc, "K-post-selection-rules", "convert", conv.site(), conv.qualname, "one photon across the two modes of every post-selected qubit", "returned post-selection rules changed", construct="ps rules")
     return res
